@@ -18,6 +18,11 @@
 #define __CPROVER_same_object(a, b) 1
 #define __CPROVER_assume(c) ((void)0)
 #define __CPROVER_assert(c, msg) IORA_ASSERT(c, msg)
+/* contract clauses on declarations in pre.h / shim headers vanish: `T f_contract(args) __CPROVER_requires(..) ..;` is a plain prototype */
+#define __CPROVER_requires(...)
+#define __CPROVER_ensures(...)
+#define __CPROVER_assigns(...)
+#define __CPROVER_frees(...)
 #else
 #define IORA_ASSERT(c, msg) __CPROVER_assert((c), msg)
 #define IORA_ASSUME(c) __CPROVER_assume(c)
